@@ -17,7 +17,9 @@ type Val struct {
 }
 
 // Outcome of resolving one (field, args) of one object.  Fail: "" | err | safe | wrapped | panic | wrapsafe
-// (wrapsafe: an ordinary error wrapping a safe one with %w).
+// (wrapsafe: an ordinary error wrapping a safe one with %w; custom: a user-defined SanitizedError;
+// cancelwrap: an ordinary error wrapping context.Canceled / context.DeadlineExceeded of some downstream
+// call while the request's own context is alive).
 type Outcome struct {
 	Fail string `json:"fail,omitempty"`
 	Msg  string `json:"msg,omitempty"`
@@ -104,7 +106,7 @@ func (g *dataGen) obj(typ string, depth int) *Obj {
 		}
 		for _, k := range keys {
 			if !f.Struct && g.pFail > 0 && g.r.Chance(g.pFail) {
-				kind := []string{"err", "err", "safe", "wrapped", "panic", "wrapsafe", "custom"}[g.r.Intn(7)]
+				kind := []string{"err", "err", "safe", "wrapped", "panic", "wrapsafe", "custom", "cancelwrap"}[g.r.Intn(8)]
 				o.Res[k] = &Outcome{Fail: kind, Msg: fmt.Sprintf("E%d.%s", o.ID, k)}
 				continue
 			}
@@ -128,6 +130,10 @@ func (g *dataGen) val(t TRef, depth int, key bool) *Val {
 	switch t.K {
 	case "int":
 		if key {
+			// keys are not unique across the data: ids are often unique only within their parent
+			if g.r.Chance(35) {
+				return &Val{K: "int", I: int64(1 + g.r.Intn(3))}
+			}
 			return &Val{K: "int", I: g.next*10 + int64(g.r.Intn(3))}
 		}
 		return &Val{K: "int", I: int64(g.r.Intn(9)) - 2}
@@ -138,6 +144,9 @@ func (g *dataGen) val(t TRef, depth int, key bool) *Val {
 		return &Val{K: "int", I: int64(g.r.Intn(9)) - 2}
 	case "str":
 		if key {
+			if g.r.Chance(35) {
+				return &Val{K: "str", S: []string{"ka", "kb", "kc"}[g.r.Intn(3)]}
+			}
 			return &Val{K: "str", S: fmt.Sprintf("k%d", g.next)}
 		}
 		return &Val{K: "str", S: g.r.Pick(strPool)}
@@ -210,7 +219,7 @@ func InjectFailure(r *vh.Rng, reached []Reached) bool {
 		}
 	}
 	x := pool[r.Intn(len(pool))]
-	kind := []string{"err", "err", "panic", "wrapsafe", "safe", "wrapped", "custom"}[r.Intn(7)]
+	kind := []string{"err", "err", "panic", "wrapsafe", "safe", "wrapped", "custom", "cancelwrap"}[r.Intn(8)]
 	x.Obj.Res[x.Key] = &Outcome{Fail: kind, Msg: fmt.Sprintf("E%d.%s", x.Obj.ID, x.Key)}
 	return true
 }
